@@ -1,8 +1,15 @@
-/- Driver for C16: replays the trigger-related system calls of the real qmail-queue instances and
-   qmail-send (qsim, every interleaving) through `Trigger.accept`; oracle: the daemon never sleeps while
-   a completed injection is unprocessed. -/
+/- Driver for C16.
+   Trigger leg (default): replays the trigger-related system calls of the real qmail-queue instances and
+   qmail-send (qsim, every interleaving) through `Trigger.accept`; oracles: the daemon never sleeps while a
+   completed injection is unprocessed; a completed injection is processed within the `2·|todo|+3` own steps of
+   the daemon that `C16_bounded` states.
+   Select-preparation leg (both modes; with the argument `selprep` the T lines are ignored): every `X snap` line
+   (harness/c16_snap.h) is a snapshot of the real daemon's globals at a select together with the timeout and
+   descriptor sets the real code passed.  DISAGREE: `SelPrep.timeout/rfds/wfds` differ from what the code passed.
+   ORACLE: the predicates of `C16_no_spin` / `C16_early_return_acts` evaluated on the implementation's values. -/
 import Drv.Util
 import Nq.Trigger
+import Nq.SelPrep
 
 open Nq Nq.Trigger Drv
 
@@ -12,38 +19,152 @@ structure Case where
   nev : Nat := 0
   num : List (String × Nat) := []     -- injector process → message number
   bad : Bool := false
+  boot : Bool := true                 -- the start-up re-arm has not happened yet
+  budget : List (Nat × Nat) := []     -- completed, unprocessed injections → own steps the daemon has left (C16_bounded)
+  nsnap : Nat := 0
 
 structure D where
   st : Stats := {}
   c : Case := {}
+  selOnly : Bool := false
+  snaps : Std.HashSet UInt64 := {}
+  snapBad : Nat := 0
+
+def isDaemonEv : Ev → Bool
+  | .dClose | .dOpen | .dOpendir | .dSeeNew _ | .dRead _ | .dEnd => true
+  | _ => false
+
+/-- the bound of `C16_bounded` for every completed injection that is still unprocessed -/
+def freshBudget (s : St) : List (Nat × Nat) :=
+  (s.todo.filter (fun n => pulled (s.pc n))).map (fun n => (n, 2 * s.todo.length + 3))
 
 def feed (d : D) (ev : Ev) (what : String) : IO D := do
   match d.c.st with
   | none => return d
   | some s =>
     match accept s ev with
-    | some s' => return { d with c := { d.c with st := some s', nev := d.c.nev + 1 }, st := d.st.bump ("ev_" ++ what) }
+    | some s' =>
+      let own := isDaemonEv ev && dAllowed d.c.boot s ev
+      let boot' := if isDaemonEv ev then bootAfter d.c.boot ev else d.c.boot
+      -- C16_bounded on the implementation: own steps of the daemon are counted against the bound fixed when the entry
+      -- became a completed injection (any injector step or timer-driven re-arm in between renews it)
+      let budget' := if own then (d.c.budget.filter (fun b => s'.todo.contains b.1)).map (fun b => (b.1, b.2 - 1)) else freshBudget s'
+      let mut d := { d with c := { d.c with st := some s', nev := d.c.nev + 1, boot := boot', budget := budget' }, st := d.st.bump ("ev_" ++ what) }
+      if isDaemonEv ev && !own then d := { d with st := d.st.bump "daemon_steps_by_timer" }
+      match budget'.find? (fun b => b.2 == 0) with
+      | some b =>
+        IO.println s!"ORACLE {d.c.hdr} why=completed_injection_{b.1}_not_processed_within_2todo+3_own_steps_of_the_daemon event#{d.c.nev} {what}"
+        d := { d with st := { d.st with oracle := d.st.oracle + 1 }, c := { d.c with budget := [] } }
+      | none => pure ()
+      return d
     | none =>
       IO.println s!"DISAGREE {d.c.hdr} event#{d.c.nev + 1} rejected: {what} {repr ev}"
       return { d with st := { d.st with disagree := d.st.disagree + 1 }, c := { d.c with st := none, bad := true } }
 
+/-! ### the select-preparation leg -/
+
+open Nq.SelPrep in
+def parseOptInt (s : String) : Option (Option Int) := if s == "-" then some none else s.toInt?.map some
+
+open Nq.SelPrep in
+def parseChan (v : String) : Option Chan :=
+  match v.splitOn "," with
+  | [a, b, u, c, p, q] =>
+    match u.toNat?, c.toNat?, parseOptInt q with
+    | some u, some c, some q => some { spawnAlive := a == "1", commPending := b == "1", used := u, conc := c, passOpen := p == "1", pqMin := q }
+    | _, _, _ => none
+  | _ => none
+
+def kvOf (toks : List String) (k : String) : String :=
+  match toks.find? (fun t => t.startsWith (k ++ "=")) with
+  | some t => (t.drop (k.length + 1)).toString
+  | none => ""
+
+open Nq.SelPrep in
+def parseSnap (toks : List String) : Option (Snap × Int × List String × List String) := do
+  let recent ← (kvOf toks "recent").toInt?
+  let c0 ← parseChan (kvOf toks "c0")
+  let c1 ← parseChan (kvOf toks "c1")
+  let jobs := kvOf toks "jobs"
+  let refs := if jobs == "-" then [] else jobs.toList.map (fun ch => ch.toNat - '0'.toNat)
+  let pqf ← parseOptInt (kvOf toks "pqfail")
+  let pqd ← parseOptInt (kvOf toks "pqdone")
+  let next ← (kvOf toks "next").toInt?
+  let ct ← (kvOf toks "ct").toInt?
+  let tmo ← (kvOf toks "timeout").toInt?
+  let lst := fun (k : String) => let v := kvOf toks k; if v == "-" || v == "" then [] else v.splitOn ","
+  let s : Snap := { recent := recent, exitasap := kvOf toks "exit" == "1", chans := [c0, c1], jobRefs := refs, pqfailMin := pqf, pqdoneMin := pqd,
+                    triggerFd := kvOf toks "trig" == "1", tododir := kvOf toks "tododir" == "1", nexttodorun := next,
+                    flagcleanup := kvOf toks "fc" == "1", cleanuptime := ct }
+  return (s, tmo, lst "rfds", lst "wfds")
+
+open Nq.SelPrep in
+def fdTok : Fd → String
+  | .commOut c => s!"c{c}"
+  | .delIn c => s!"d{c}"
+  | .trigger => "t"
+
+open Nq.SelPrep in
+def tokFd (t : String) : Option Fd :=
+  if t == "t" then some .trigger else if t == "d0" then some (.delIn 0) else if t == "d1" then some (.delIn 1)
+  else if t == "c0" then some (.commOut 0) else if t == "c1" then some (.commOut 1) else none
+
+def sortStr (l : List String) : List String := (l.toArray.qsort (· < ·)).toList
+
+open Nq.SelPrep in
+/-- which case of the theorem a snapshot exercises (coverage statistics) -/
+def snapClass (s : Snap) : String :=
+  let e := if s.exitasap then "exit_" else ""
+  if !s.exitasap && s.chans.any (fun c => c.passOpen && delAvail c) then "snap_zero_pass_may_proceed"
+  else if !s.exitasap && s.tododir then "snap_zero_todo_scan"
+  else if s.flagcleanup then "snap_" ++ e ++ "zero_cleanup_scan"
+  else if pending s then "snap_" ++ e ++ "zero_due_time_reached"
+  else
+    let w := wakeup s
+    if w == s.recent + SLEEP_FOREVER then "snap_" ++ e ++ "sleep_forever"
+    else if w == s.cleanuptime then "snap_" ++ e ++ "sleep_until_cleanup"
+    else if !s.exitasap && w == s.nexttodorun then "snap_sleep_until_todo_rescan"
+    else "snap_sleep_until_retry"
+
+open Nq.SelPrep in
+/-- the guard of the `*_do` function that owns descriptor `f`, with only `f` ready (C16_early_return_acts, per descriptor) -/
+def fdActs (s : Snap) (f : Fd) : Bool :=
+  match f with
+  | .trigger => todoDoActs { s with tododir := false, nexttodorun := s.recent + 1 } (fun g => g == f)
+  | .delIn _ => delDoActs (fun g => g == f) 0 s.chans
+  | .commOut _ => commDoActs (fun g => g == f) 0 s.chans
+
+open Nq.SelPrep in
+/-- the predicates of C16_no_spin / C16_early_return_acts on the implementation's timeout and descriptor sets;
+`none` = they hold -/
+def snapOracle (s : Snap) (tmo : Int) (rf wf : List String) : Option String :=
+  if s.recent < 0 then none else
+  if tmo == 0 && !pending s then some "timeout_0_with_nothing_pending(busy_loop)"
+  else if tmo != 0 && pending s then some "positive_timeout_with_work_pending"
+  else if tmo < 0 then some "negative_timeout"
+  else
+    let w := s.recent + tmo - SLEEP_FUZZ       -- the wake-up time the implementation asked for
+    if tmo > 0 && (dueTimes s).any (fun t => decide (w > t)) then some "sleeps_past_a_due_event_by_more_than_the_fuzz"
+    else if tmo > 0 && w > s.recent + SLEEP_FOREVER then some "sleeps_longer_than_SLEEP_FOREVER"
+    else if tmo > 0 && !(w == s.recent + SLEEP_FOREVER || (dueTimes s).contains w) then some "wakes_for_a_time_that_is_not_due"
+    else
+      -- every watched descriptor must be one whose own `*_do` acts on it when it is ready (else: spin) ...
+      let ignored := (rf ++ wf).find? (fun t => match tokFd t with
+        | some f => !fdActs s f
+        | none => true)
+      match ignored with
+      | some t => some s!"watches_descriptor_{t}_that_the_loop_body_ignores"
+      | none =>
+        -- ... and nothing the daemon must react to may be left out (else: deaf while asleep)
+        if !s.exitasap && s.triggerFd && !rf.contains "t" then some "trigger_FIFO_not_watched"
+        else if (s.chans.zipIdx.any fun (c, i) => c.spawnAlive && !rf.contains s!"d{i}") then some "live_spawner_reports_not_watched"
+        else if (s.chans.zipIdx.any fun (c, i) => c.spawnAlive && c.commPending && !wf.contains s!"c{i}") then some "pending_command_not_watched"
+        else none
+
 def lastNum (path : String) : Option Nat := (path.splitOn "/").getLast?.bind (·.toNat?)
 
-def handle (d : D) (line : String) : IO D := do
-  let toks := fields line
+def handleT (d : D) (toks : List String) : IO D := do
   match toks with
-  | "CASE" :: rest =>
-    let hl := " ".intercalate rest
-    let h := hashBytes hl.toUTF8.toList
-    let fresh := !d.st.seen.contains h
-    let mut st : Stats := { d.st with cases := d.st.cases + 1, seen := d.st.seen.insert h, nontrivial := d.st.nontrivial + (if fresh then 1 else 0) }
-    if st.samples < 3 then
-      IO.println s!"SAMPLE {hl}"
-      st := { st with samples := st.samples + 1 }
-    return { st := st, c := { hdr := hl } }
-  | "X" :: "sleeping-with-unprocessed-todo" :: rest =>
-    IO.println s!"ORACLE {d.c.hdr} why=daemon_sleeps_with_a_completed_injection_unprocessed {" ".intercalate rest}"
-    return { d with st := { d.st with oracle := d.st.oracle + 1 } }
   | "T" :: "P0" :: _ :: "open_read" :: "lock/trigger" :: "->" :: r :: _ => if r == "-1" then return d else feed d .dOpen "dOpen"
   | "T" :: "P0" :: _ :: "close_fifo" :: _ => feed d .dClose "dClose"
   | "T" :: "P0" :: _ :: "opendir" :: "todo" :: "->" :: r :: _ => if r == "ok" then feed d .dOpendir "dOpendir" else return d
@@ -74,7 +195,49 @@ def handle (d : D) (line : String) : IO D := do
     match (d.c.num.find? (·.1 == p)).map (·.2) with
     | some n => feed d (.iClose n) "iClose"
     | none => return d
+  | _ => return d
+
+def handle (d : D) (line : String) : IO D := do
+  let toks := fields line
+  match toks with
+  | "CASE" :: rest =>
+    let hl := " ".intercalate rest
+    let h := hashBytes hl.toUTF8.toList
+    let fresh := !d.st.seen.contains h
+    let mut st : Stats := { d.st with cases := d.st.cases + 1, seen := d.st.seen.insert h, nontrivial := d.st.nontrivial + (if fresh then 1 else 0) }
+    if st.samples < 3 then
+      IO.println s!"SAMPLE {hl}"
+      st := { st with samples := st.samples + 1 }
+    return { d with st := st, c := { hdr := hl } }
+  | "X" :: "snap" :: rest =>
+    match parseSnap rest with
+    | none =>
+      IO.println s!"DISAGREE {d.c.hdr} unparsable snapshot: {" ".intercalate rest}"
+      return { d with st := { d.st with disagree := d.st.disagree + 1 } }
+    | some (s, tmo, rf, wf) =>
+      let h := hashBytes ((" ".intercalate (rest.filter (fun t => !t.startsWith "recent="))).toUTF8.toList)
+      let mut d := { d with snaps := d.snaps.insert h, st := d.st.bump (snapClass s), c := { d.c with nsnap := d.c.nsnap + 1 } }
+      let mt := Nq.SelPrep.timeout s
+      let mrf := sortStr ((Nq.SelPrep.rfds s).map fdTok)
+      let mwf := sortStr ((Nq.SelPrep.wfds s).map fdTok)
+      if !Nq.SelPrep.loopContinues s then
+        if d.snapBad < 20 then IO.println s!"DISAGREE {d.c.hdr} select#{d.c.nsnap} the model's loop condition is false at a select: {" ".intercalate rest}"
+        d := { d with snapBad := d.snapBad + 1, st := { d.st with disagree := d.st.disagree + 1 } }
+      if mt != tmo || mrf != sortStr rf || mwf != sortStr wf then
+        if d.snapBad < 20 then IO.println s!"DISAGREE {d.c.hdr} select#{d.c.nsnap} model timeout={mt} rfds={mrf} wfds={mwf} impl: {" ".intercalate rest}"
+        d := { d with snapBad := d.snapBad + 1, st := { d.st with disagree := d.st.disagree + 1 } }
+      match snapOracle s tmo rf wf with
+      | some why =>
+        if d.st.oracle < 20 then IO.println s!"ORACLE {d.c.hdr} select#{d.c.nsnap} why={why} snap: {" ".intercalate rest}"
+        d := { d with st := { d.st with oracle := d.st.oracle + 1 } }
+      | none => pure ()
+      return d
+  | "X" :: "sleeping-with-unprocessed-todo" :: rest =>
+    IO.println s!"ORACLE {d.c.hdr} why=daemon_sleeps_with_a_completed_injection_unprocessed {" ".intercalate rest}"
+    return { d with st := { d.st with oracle := d.st.oracle + 1 } }
+  | "T" :: _ => if d.selOnly then return d else handleT d toks
   | "END" :: _ =>
+    if d.selOnly then return d else
     -- at the end everything injected must have been processed
     match d.c.st with
     | some s =>
@@ -91,7 +254,8 @@ partial def loop2 (h : IO.FS.Stream) (d : D) : IO D := do
   let d' ← handle d line
   loop2 h d'
 
-def main : IO Unit := do
+def main (args : List String) : IO Unit := do
   let stdin ← IO.getStdin
-  let d ← loop2 stdin {}
-  IO.println s!"STATS {d.st.json}"
+  let d ← loop2 stdin { selOnly := args.contains "selprep" }
+  let st := { d.st with counters := d.st.counters ++ [("snap_distinct", d.snaps.size)] }
+  IO.println s!"STATS {st.json}"
